@@ -59,6 +59,63 @@ pub fn ref_target(ty: &Type) -> Type {
     }
 }
 
+/// Like [`expand_self`] for the generics of an `impl`, but usable when `Self` is a reference type
+/// written without a lifetime (`impl Trait for &T`): the generated impls are for other self types,
+/// so `Self` is spelled `&'__a T` and every bound or predicate mentioning it is made higher-ranked
+/// (`for<'__a> &'__a T: Bound`), which is what the elided lifetime of the original impl means.
+pub fn expand_self_in_impl_generics(generics: &Generics, to: &Type) -> Generics {
+    let Type::Reference(r) = to else {
+        return expand_self(generics, to);
+    };
+    if r.lifetime.is_some() {
+        return expand_self(generics, to);
+    }
+    struct ContainsSelf(bool);
+    impl<'ast> Visit<'ast> for ContainsSelf {
+        fn visit_type(&mut self, i: &'ast Type) {
+            let tself: Type = parse_quote!(Self);
+            if i == &tself {
+                self.0 = true;
+            } else {
+                syn::visit::visit_type(self, i);
+            }
+        }
+    }
+    let mut to_hr = r.clone();
+    to_hr.lifetime = Some(parse_quote!('__a));
+    let to_hr = Type::Reference(to_hr);
+    let add_lifetime = |lifetimes: &mut Option<syn::BoundLifetimes>| match lifetimes {
+        Some(l) => l.lifetimes.push(parse_quote!('__a)),
+        None => *lifetimes = Some(parse_quote!(for<'__a>)),
+    };
+    let mut generics = generics.clone();
+    for p in &mut generics.params {
+        if let GenericParam::Type(p) = p {
+            for b in &mut p.bounds {
+                if let syn::TypeParamBound::Trait(b) = b {
+                    let mut v = ContainsSelf(false);
+                    v.visit_trait_bound(b);
+                    if v.0 {
+                        add_lifetime(&mut b.lifetimes);
+                    }
+                }
+            }
+        }
+    }
+    if let Some(w) = &mut generics.where_clause {
+        for p in &mut w.predicates {
+            if let syn::WherePredicate::Type(p) = p {
+                let mut v = ContainsSelf(false);
+                v.visit_predicate_type(p);
+                if v.0 {
+                    add_lifetime(&mut p.lifetimes);
+                }
+            }
+        }
+    }
+    expand_self(&generics, &to_hr)
+}
+
 pub struct GenericParamSet {
     idents: HashSet<Ident>,
 }
